@@ -65,6 +65,7 @@ def r1_constructor(ctx):
                     callers_store.add(f.path)
                 if nm.endswith('Box::<T, A>::leak'):
                     leaks.add(f.path)
+        sites, callers_hc, leaks, callers_store = owners(cr, sites), owners(cr, callers_hc), owners(cr, leaks), owners(cr, callers_store)
         checks = [('RE-aggregates-only-in-HashConsed::make', sites == {HCMAKE}, sorted(sites)),
                   ('HashConsed::make-called-only-by-Store::make', callers_hc == {SMAKE}, sorted(callers_hc)),
                   ('Box::leak-only-in-Store::make', leaks == {SMAKE}, sorted(leaks)),
@@ -341,6 +342,7 @@ def r7_who_may_call(ctx):
                                 for s2 in b2['stmts']:
                                     if s2[0] == 'assign' and s2[1]['l'] == l and "'id2re'" in repr(s2[2]):
                                         indexers.add(f.path)
+        callers_id = owners(cr, callers_id)
         ok = callers_id == allowed_id
         ctx.obligation(ok)
         (ctx.ok if ok else ctx.violation)('C07.R7', 'C07.R7/id_to_re/called-only-by-complement-and-make', RM + 'id_to_re', None, {'callers': sorted(callers_id), 'unexpected': sorted(callers_id - allowed_id), 'missing': sorted(allowed_id - callers_id)}, cfg)
@@ -361,6 +363,7 @@ def r7_who_may_call(ctx):
                 for st in b['stmts']:
                     if st[0] == 'assign' and st[2][0] == 'agg' and isinstance(st[2][1], dict) and st[2][1].get('adt') == BRL.rstrip(':') and st[2][1].get('variant') == 'Complement':
                         comp_sites.add(f.path)
+        comp_sites = owners(cr, comp_sites)
         okc = comp_sites == {RM + 'new', RM + 'make'}
         ctx.obligation(okc)
         (ctx.ok if okc else ctx.violation)('C07.R7', 'C07.R7/Complement-keys/built-only-in-new-and-make', RM + 'make', None, {'sites': sorted(comp_sites), 'unexpected': sorted(comp_sites - {RM + 'new', RM + 'make'})}, cfg)
